@@ -2,8 +2,8 @@
 
 Theorems: SshAudit.Props.C11 (byte-level parse of RSA / Ed25519 / Ed448 blobs and of RSA / Ed25519
 certificates signed by RSA / Ed25519 / ECDSA CAs, for every modulus, exponent and every key-id /
-principals / options / extensions byte string; the displayed size as a function of the modulus bit
-length; thresholds and antitone rating; RSA-family fan-out for every host-key list and every
+principals / options / extensions byte string; RSA size = bit length of the modulus;
+thresholds and antitone rating; RSA-family fan-out for every host-key list and every
 server state machine; fingerprint source / labels / text = JSON; fingerprint text format).
 Tie: (1) KexDH.recv_reply on generated + mutated reply payloads vs `hk.parse`; (2) the thresholds of
 HostKeyTest.perform_test (stub kex group reporting chosen sizes) vs `hk.comments` and the database
@@ -33,11 +33,25 @@ from props.C10 import exn_name
 ID = 'C11'
 MODULE = 'SshAudit.Props.C11'
 NAMESPACE = 'SshAudit.C11'
-THEOREMS = []
+THEOREMS = ['rsa_size_general', 'bitLen_mono', 'ed25519_size', 'ed448_size', 'cert_sizes', 'ecdsa_ca_bits',
+            'cert_wrong_type', 'rsa_thresholds', 'rsa_family_severity', 'rating_antitone', 'rating_antitone_keys', 'cert_thresholds', 'edcert_ca_thresholds',
+            'ca_rating_antitone', 'table_facts', 'types_in_db', 'family_fanout', 'family_first_offered', 'family_not_offered', 'family_shown', 'edited_notes',
+            'family_uniform_report', 'family_notes_by_size',
+            'fingerprint_source', 'fingerprint_labels', 'fingerprint_complete', 'fingerprints_text_eq_json', 'run_fingerprints_agree', 'run_records',
+            'fingerprints_differ_witness', 'fingerprint_lines_agree', 'sha256_format', 'md5_format', 'hexByte_digits', 'rating_by_true_bits', 'cert_rating_by_true_bits',
+            'repaired_witness', 'ed448_rated_small']
 TECHNIQUE = ('Lean 4 theorems (byte-level parser vs. independently written RFC encoders, arithmetic by omega, fold invariants for an arbitrary server state machine) '
              '+ differential correspondence with KexDH.recv_reply, HostKeyTest.perform_test/run over scripted servers and output() in text/verbose/JSON mode')
-LEVEL_TEXT = ''
-LEVEL_NOTE = ''
+LEVEL_TEXT = ('Sizes: the byte-level parser of the model is proved against independently written RFC 4251/4253/8709/5656 and PROTOCOL.certkeys encoders for every exponent, modulus, '
+              'key id, principals, options, extensions, nonce, serial and validity (only bound: the 32-bit length fields): recorded blob = presented blob, RSA size = bit length of the modulus (host keys and CA keys, every positive modulus), '
+              'Ed25519 = 256, Ed448 = 448, certificate lines carry the certified key size and the CA type/size (RSA, Ed25519, ECDSA; P-521 = 528). Ratings: the threshold clauses are equalities about the notes added, '
+              'stated for the true bit length of every modulus (rating_by_true_bits, cert_rating_by_true_bits) and antitone in the size and in the modulus. Fan-out: for every host-key list and every server state machine one probe connection serves the family, the three records are equal and the three '
+              'entries receive the same notes. Fingerprints: hashed bytes = first string of the reply for every payload; labels (one ssh-rsa, no -cert-, no duplicates); text list = JSON list after every scan; '
+              'SHA256: + unpadded base64 / MD5: + colon hex with the hash functions abstract. The model is compared with KexDH.recv_reply, HostKeyTest.perform_test/run and output() (text, -v, -j, and through main()).')
+LEVEL_NOTE = ('Trusted: Lean kernel; the correspondence harness, fakenet and its generators; hashlib/base64 as the reference for "standard fingerprints" (hash functions are parameters of the model). '
+              'C11-F1 (RSA sizes taken from the byte length of the encoding: 2040-2047 bits shown and rated as 2048, 3064-3071 as 3072) is repaired in /repo 8b8696d; its witnesses run first and the oracle compares the displayed size and the notes with the true bit length. '
+              'Observations (D24, outside the RSA clauses): ssh-ed448 is rated "using small 448-bit modulus"; a P-521 CA is shown as 528-bit; '
+              'the JSON has no keysize for rsa-sha2-*-cert-v01 types. fingerprints_differ_witness: text and JSON would disagree on a host-key map whose RSA-family records differ (unreachable: run_records).')
 
 RSA = ['ssh-rsa', 'rsa-sha2-256', 'rsa-sha2-512']
 RSA_CERT = 'ssh-rsa-cert-v01@openssh.com'
@@ -232,6 +246,14 @@ def gen_blobs(ctx):
         kind = r.choice([RSA_CERT, ED_CERT])
         pub = sstr(rand_bytes(r, 32)) if kind == ED_CERT else mpint(3) + mpint(rsa_n(r, 2048, 'rand'))
         out.append(('cert-odd-ca', cert_blob(kind.encode(), pub, ca, f)))
+    # the branches of the bit-length measurement: zero moduli (fall back to the byte rule), prefixes of the type test, a CA modulus field that is declared but absent
+    for body in (b'\x00', b'\x00\x00\x00', b'\x00' * 129, b'\x00\x01', b'\x00' * 100 + b'\x80' + b'\x00' * 28):
+        out.append(('rsa-odd', sstr(b'ssh-rsa') + mpint(65537) + sstr(body)))
+        out.append(('rsa-odd', sstr(b'ssh-rsa-x') + mpint(65537) + sstr(body)))
+        out.append(('rsa-odd', sstr(b'rsa-sha2-256') + mpint(65537) + sstr(body)))
+        for cat in (b'ssh-rsa', b'rsa-sha2-512', b'ssh-rsa-cert-v01@openssh.com'):
+            out.append(('cert-odd-ca', cert_blob(RSA_CERT.encode(), mpint(3) + sstr(body), sstr(cat) + mpint(3) + sstr(body), cert_fields(r))))
+            out.append(('cert-odd-ca', cert_blob(ED_CERT.encode(), sstr(b'k' * 32), sstr(cat) + mpint(3) + struct.pack('>I', 5), cert_fields(r))))
     for t in (b'', b'x', b'ssh-rsa\x00', b'ssh-\xff', b'SSH-RSA', b'ssh-ed25519 ', b'ssh-ed448', b'ssh-ed25519'):
         out.append(('odd-type', sstr(t) + sstr(b'ab') + sstr(b'cd' * 10)))
     return out
@@ -533,7 +555,9 @@ def run_main_views(desc):
             out['probes'] = [c.client_kex.key_algorithms[0] if c.client_kex is not None and c.client_kex.key_algorithms else None for c in srv.log[1:]]
         else:
             try:
-                doc = json.loads(text)
+                # a probe answered with a bad block size makes read_packet print '[exception] invalid ssh packet …' on stdout before the document (not a C11 matter)
+                out['polluted'] = not text.lstrip().startswith('{')
+                doc = json.loads(text[text.index('\n{') + 1:] if out['polluted'] and '\n{' in text else text)
                 out['jsonKey'], out['jsonFps'] = doc['key'], doc['fingerprints']
             except ValueError:
                 out['jsonKey'], out['jsonFps'] = 'unparsable: ' + text[:200], None
@@ -616,8 +640,8 @@ CERT_RX = re.compile(r'^(.*) \((\d+)-bit cert/(\d+)-bit (.*) CA\)$')
 
 
 def size_ok(shown, bits):
-    """exact for moduli whose bit length is a multiple of 16 (every real key size); within the 16-bit display granularity otherwise"""
-    return shown == bits if bits % 16 == 0 else abs(shown - bits) < 16
+    """the displayed size of an RSA key is the bit length of its modulus"""
+    return shown == bits
 
 
 def sev_expected(bits):
@@ -630,10 +654,6 @@ def cert_expect(host_rsa, hbits, hshown, cbits, cshown):
     cf = ['using small %d-bit CA key modulus' % cshown] if cbits < 2048 else []
     w = 1 if ((host_rsa and 2048 <= hbits < 3072) or 2048 <= cbits < 3072) else 0
     return hf, cf, w
-
-
-def in_rounding_window(bits):
-    return 2040 <= bits <= 2047 or 3064 <= bits <= 3071
 
 
 def audit_oracle(desc, res, observations, sevlog):
@@ -688,18 +708,13 @@ def audit_oracle(desc, res, observations, sevlog):
             f('rsa_family_members_differ', {'sizes': shown_sizes, 'notes': size_notes}, 'every advertised member shows the same size and size notes')
         sz = shown_sizes[fam[0]]
         if sz is None or not size_ok(sz, bits):
-            f('rsa_size_wrong', {'shown': lines[fam[0]][0]}, '%d-bit' % bits)
-        elif sz != bits:
-            observations['rsa_size_granularity'] = observations.get('rsa_size_granularity', 0) + 1
+            f('rsa_size_wrong', {'modulus_bits': bits, 'shown': lines[fam[0]][0]}, '%d-bit' % bits)
         notes = size_notes[fam[0]]
         sev = 2 if any(l == 'fail' and x.startswith('using small') for l, x in notes) else (1 if any(l == 'warn' and x == TWO2K for l, x in notes) else 0)
         sevlog.append((bits, sev))
-        okn = {2: [['fail', 'using small %d-bit modulus' % (sz or 0)]], 1: [['warn', TWO2K]], 0: []}[sev_expected(bits)]
+        okn = {2: [['fail', 'using small %d-bit modulus' % bits]], 1: [['warn', TWO2K]], 0: []}[sev_expected(bits)]
         if notes != okn:
-            if in_rounding_window(bits) and sev == sev_expected(bits) - 1:
-                f('rsa_rounded_up_across_threshold', {'modulus_bits': bits, 'shown': lines[fam[0]][0], 'size_notes': notes}, {'size_notes': okn})
-            else:
-                f('rsa_rating_wrong', {'modulus_bits': bits, 'shown': lines[fam[0]][0], 'size_notes': notes}, {'size_notes': okn})
+            f('rsa_rating_wrong', {'modulus_bits': bits, 'shown': lines[fam[0]][0], 'size_notes': notes}, {'size_notes': okn})
         # fingerprints: one entry for the whole family, labelled ssh-rsa, of the presented blob
         for t in ('rsa-sha2-256', 'rsa-sha2-512'):
             if t in text_fp or t in json_fp or t in verbose_fp:
@@ -768,13 +783,10 @@ def audit_oracle(desc, res, observations, sevlog):
             cb_eff = cbits if ca['kind'] == 'rsa' else 10 ** 6
             obs3 = ([x for l, x in notes if l == 'fail' and 'hostkey modulus' in x], [x for l, x in notes if l == 'fail' and 'CA key modulus' in x],
                     len([x for l, x in notes if l == 'warn' and x == TWO2K]))
-            if obs3 != cert_expect(host_rsa, host_bits, hs, cb_eff, cs):
-                rounded = obs3 == cert_expect(host_rsa, hs, hs, cs if ca['kind'] == 'rsa' else cb_eff, cs)
-                if rounded and (in_rounding_window(host_bits) or (ca['kind'] == 'rsa' and in_rounding_window(cbits))):
-                    f('rsa_rounded_up_across_threshold', {'hostkey_bits': host_bits, 'ca_modulus_bits': cbits, 'shown': shown, 'notes': notes}, 'certified key and CA key rated by their true sizes')
-                else:
-                    f('rsa_cert_rating_wrong', {'hostkey_bits': host_bits, 'ca_modulus_bits': cbits, 'shown': shown, 'notes': notes},
-                      'RSA host key / RSA CA key < 2048: failure; 2048 <= size < 3072: the 2048-bit warning (once); otherwise no size note')
+            want3 = cert_expect(host_rsa, host_bits, host_bits, cb_eff, cbits)
+            if obs3 != want3:
+                f('rsa_cert_rating_wrong', {'hostkey_bits': host_bits, 'ca_modulus_bits': cbits, 'shown': shown, 'notes': notes},
+                  {'hostkey_failures': want3[0], 'ca_failures': want3[1], 'warnings_2048': want3[2]})
     # text and JSON list the same fingerprint entries (ECDSA / DSS only with -v in the text report)
     tl = sorted(verbose_fp)
     jl = sorted(json_fp)
@@ -827,8 +839,8 @@ def gen_servers(ctx):
 
     def mk(keys, answers, meta, kex=None, refuse_after=None, tag='x'):
         servers.append({'kex': kex or KEX, 'keys': keys, 'answers': answers, 'meta': meta, 'refuse_after': refuse_after, 'tag': tag})
-    # corpus: the witnesses of the recorded findings / observations first
-    for bits in (2047, 2040, 3071, 3064, 1032, 2048, 3072, 2056):
+    # corpus: the witnesses of the repaired defect C11-F1 (sizes that used to be rounded up across a threshold) first
+    for bits in (2047, 2046, 2040, 3071, 3064, 1032, 2048, 3072, 1024):
         a, m = key_answer(r, 'ssh-rsa', grid, bits, 'min')
         mk(['ssh-rsa', 'rsa-sha2-512'], {'ssh-rsa': a, 'rsa-sha2-512': a}, {'ssh-rsa': m, 'rsa-sha2-512': m}, tag='corpus')
     # every RSA size of the grid, cycling through the 15 ordered non-empty subsets of the family, with other keys around
@@ -895,6 +907,8 @@ def gen_servers(ctx):
         for t in set(keys):
             x = r.random()
             a, _ = key_answer(r, t, grid) if t in types else (None, None)
+            if r.random() < 0.15:   # a key of another type than the one asked for
+                a, _ = key_answer(r, r.choice(types), grid)
             if a is None:
                 a = ['blob', ed25519_blob().hex()]
             if x < 0.45:
@@ -941,6 +955,8 @@ def stream_audit(ctx, cov, mismatches, failures, observations):
             if desc.get('refuse_after') is None and r.random() < ctx.scale(0.08, 0.05) and 'crash' not in res:
                 n_main += 1
                 mv = run_main_views(desc)
+                if mv.get('polluted'):
+                    observations['main_-j_output_preceded_by_exception_line (bad block size on a probe connection)'] = observations.get('main_-j_output_preceded_by_exception_line (bad block size on a probe connection)', 0) + 1
                 for k in ('keyLines', 'fin', 'jsonFps'):
                     if mv[k] != res[k]:
                         mismatches.append({'stream': 'main-vs-output', 'op': line[:300], 'model': {k: str(cm[k])[:300]}, 'impl': {k: str(mv[k])[:300]}})
@@ -1058,17 +1074,27 @@ def stream_enc(ctx, cov, mismatches):
         b, f_, sg = rand_bytes(r, r.randint(0, 60)), rand_bytes(r, r.randint(0, 40)), rand_bytes(r, r.randint(0, 10))
         lines.append('hk.enc.reply %s %s %s' % (tbytes(b), tbytes(f_), tbytes(sg)))
         want.append((sstr(b) + sstr(f_) + sstr(sg)).hex())
-    for k in list(range(1, 200)) + r.sample(range(200, 20000), 200):
-        lines.append('hk.shownbits %d' % k)
-        # what the real code reports for a modulus of k bits (min pattern): via recv_reply
-        imp = real_parse(reply(rsa_blob(65537, (1 << (k - 1)) | 1)))
-        want.append(imp['ok']['size'] if 'ok' in imp else imp)
     model = ctx.driver(lines) if ctx.driver_ok else []
     for line, m, w in zip(lines, model, want):
         cov.add(('enc', line), True, tags=['spec-encoder'])
         if m.get('ok') != w:
             mismatches.append({'stream': line.split()[0], 'op': line[:300], 'model': str(m)[:300], 'impl': str(w)[:300]})
     return len(model)
+
+
+def stream_bits(ctx, cov, failures):
+    """oracle on KexDH.recv_reply alone: the size of an RSA host key / CA key is the bit length of its modulus, for every small k and a sample of large ones"""
+    r = ctx.rng
+    ks = list(range(1, ctx.scale(300, 4200))) + r.sample(range(300, 20000), ctx.scale(200, 2000))
+    for k in ks:
+        n = rsa_n(r, k, r.choice(['min', 'max', 'rand']))
+        imp = real_parse(reply(rsa_blob(65537, n)))
+        ca = real_parse(reply(cert_blob(ED_CERT.encode(), sstr(b'k' * 32), rsa_blob(3, n), cert_fields(r, plain=True))))
+        cov.add(('bits', k), True, tags=['rsa-bit-length'])
+        got = (imp.get('ok', {}).get('size'), ca.get('ok', {}).get('caSize'))
+        if got != (n.bit_length(), n.bit_length()):
+            failures.append({'sig': {'kind': 'rsa_size_wrong'}, 'input': {'kind': 'bits', 'modulus': '%x' % n}, 'observed': {'hostkey_size': got[0], 'ca_size': got[1]},
+                             'expected': n.bit_length(), 'how': 'KexDH.recv_reply on a KEXDH_REPLY carrying ssh-rsa (e=65537, n) / an Ed25519 certificate signed by it'})
 
 
 # ---------------------------------------------------------------- entry points
@@ -1085,10 +1111,10 @@ def run(ctx):
     n += stream_rate(ctx, cov, mismatches, failures)
     n += stream_audit(ctx, cov, mismatches, failures, observations)
     n += stream_fmt(ctx, cov, mismatches, failures)
+    stream_bits(ctx, cov, failures)
     n += stream_enc(ctx, cov, mismatches)
     fn.reset_dbs()
     obs = ['%s: %s' % (k, v) for k, v in sorted(observations.items())]
-    obs.append('displayed RSA sizes are 16-bit granular (8*floor(k/8), +8 when floor(k/8) is odd): exact for every modulus whose bit length is a multiple of 16; theorem rsa_size_general')
     return {'failures': failures, 'mismatches': mismatches, 'coverage': cov, 'corr_cases': n, 'exhaustive': False,
             'assumptions': ['scripted servers present the same RSA key under every RSA-family name they advertise when the oracle is applied (as real servers do); servers answering differently per name are compared with the model only',
                             'SHA-256, MD5, base64 of the Python standard library are the reference for "standard fingerprints"',
@@ -1109,6 +1135,11 @@ def replay(obj):
             bad.append('notes not uniform')
         print('PROPERTY FAILS: %r' % (bad[:2],) if bad else 'rated per the statement')
         return 1 if bad else 0
+    if kind == 'bits':
+        n = int(inp['modulus'], 16)
+        imp = real_parse(reply(rsa_blob(65537, n)))
+        print('modulus of %d bits: recv_reply reports %r' % (n.bit_length(), imp))
+        return 0 if imp.get('ok', {}).get('size') == n.bit_length() else 1
     if kind == 'fmt':
         print('see the failure record (Fingerprint formatting of fixed digests)')
         print(json.dumps({k: f[k] for k in ('observed', 'expected')}))
